@@ -3,6 +3,7 @@ package tsi1
 import (
 	"container/list"
 	"sync"
+	"sync/atomic"
 
 	"github.com/influxdata/influxdb/tsdb"
 )
@@ -25,6 +26,10 @@ type TagValueSeriesIDCache struct {
 	evictor *list.List
 
 	capacity int
+
+	// changes counts the index changes that cached sets had to follow. It is
+	// incremented under the read lock (at least) and compared under the write lock.
+	changes uint64
 }
 
 // NewTagValueSeriesIDCache returns a TagValueSeriesIDCache with capacity c.
@@ -97,12 +102,34 @@ func (c *TagValueSeriesIDCache) measurementContainsSets(name []byte) bool {
 // the cache is at its limit, then the least recently used item is evicted.
 func (c *TagValueSeriesIDCache) Put(name, key, value []byte, ss *tsdb.SeriesIDSet) {
 	c.Lock()
-	// Check under the write lock if the relevant item is now in the cache.
-	if c.exists(name, key, value) {
-		c.Unlock()
+	defer c.Unlock()
+	c.put(name, key, value, ss)
+}
+
+// noteChange records that series were added to or removed from the index, so that
+// a set computed before the change is not cached after it. The caller holds the
+// read lock until it has also applied the change to the cached sets.
+func (c *TagValueSeriesIDCache) noteChange() { atomic.AddUint64(&c.changes, 1) }
+
+// Changes returns a token for PutIfUnchanged. It must be taken before the set is computed.
+func (c *TagValueSeriesIDCache) Changes() uint64 { return atomic.LoadUint64(&c.changes) }
+
+// PutIfUnchanged is Put, unless the index has changed since the token was taken:
+// the set may then miss that change, and nothing would ever add it to the cached copy.
+func (c *TagValueSeriesIDCache) PutIfUnchanged(name, key, value []byte, ss *tsdb.SeriesIDSet, token uint64) {
+	c.Lock()
+	defer c.Unlock()
+	if atomic.LoadUint64(&c.changes) != token {
 		return
 	}
-	defer c.Unlock()
+	c.put(name, key, value, ss)
+}
+
+func (c *TagValueSeriesIDCache) put(name, key, value []byte, ss *tsdb.SeriesIDSet) {
+	// Check under the write lock if the relevant item is now in the cache.
+	if c.exists(name, key, value) {
+		return
+	}
 
 	// Ensure our SeriesIDSet is go heap backed.
 	if ss != nil {
